@@ -201,11 +201,18 @@ func (s *c15Server) send(target string, q c14Req) {
 		case <-time.After(3 * time.Second):
 			r = c15Resp{Panicked: true, Panic: "the admin handler did not return within 3 s"}
 		}
+		// a shutdown request that was answered 200 has handed its value to the waiter (the send is synchronous); the
+		// waiter's own report may be late on a loaded machine, so it is given a second - any other request only the
+		// time a spurious signal would need
+		patience := 15 * time.Millisecond
+		if !r.Panicked && r.Status == 200 && c15AdminRoute(q.Path) == "shutdown" {
+			patience = time.Second
+		}
 		select {
 		case <-s.signals:
 			signalled = true
 			time.Sleep(2 * time.Millisecond) // let the waiter get back to the channel receive
-		case <-time.After(15 * time.Millisecond):
+		case <-time.After(patience):
 		}
 		abs = J{"t": "admin", "m": c14Meth(q.Method), "route": c15AdminRoute(q.Path)}
 	} else {
